@@ -1,4 +1,5 @@
 import CryoCat.Gen.C16
+import CryoCat.Model.C16_Fourier
 /-! C16 — model of `tiltstack.dose_filter` / `dose_filter_single_image` (cryocat/tiltstack.py). Mathlib-free.
 
 Polymorphic over the number type `α`: the driver runs these definitions at `Float` (IEEE binary64, like
@@ -72,33 +73,14 @@ def shiftSrc (n x : Nat) : Nat := (x + (n - n / 2)) % n
 def ishiftSrc (n k : Nat) : Nat := (k + n / 2) % n
 /-- signed integer frequency of DFT index `k` (`np.fft.fftfreq(n) * n`) -/
 def sfreq (n k : Nat) : Int := if 2 * k < n then (k : Int) else (k : Int) - (n : Int)
-/-- index of the complex-conjugate partner of DFT index `k`: `(-k) mod n` -/
-def negIdx (n k : Nat) : Nat := (n - k) % n
 
 def shiftFin {n : Nat} (x : Fin n) : Fin n := ⟨shiftSrc n x.val, Nat.mod_lt _ (Nat.lt_of_le_of_lt (Nat.zero_le _) x.isLt)⟩
 def ishiftFin {n : Nat} (k : Fin n) : Fin n := ⟨ishiftSrc n k.val, Nat.mod_lt _ (Nat.lt_of_le_of_lt (Nat.zero_le _) k.isLt)⟩
-def negFin {n : Nat} (k : Fin n) : Fin n := ⟨negIdx n k.val, Nat.mod_lt _ (Nat.lt_of_le_of_lt (Nat.zero_le _) k.isLt)⟩
 
 /-! ### spectra and the Fourier services -/
 
-/-- a complex number -/
-structure Cx (α : Type) where
-  re : α
-  im : α
-
-/-- real multiple of a complex number -/
-def Cx.smul [Mul α] (q : α) (z : Cx α) : Cx α := ⟨q * z.re, q * z.im⟩
-def Cx.add [Add α] (z w : Cx α) : Cx α := ⟨z.re + w.re, z.im + w.im⟩
-/-- squared modulus (power) -/
-def Cx.power [Add α] [Mul α] (z : Cx α) : α := z.re * z.re + z.im * z.im
-
-/-- 2-D spectrum of an `H × W` image, indexed `[v, u]` like `np.fft.fft2(image)` -/
-abbrev Spec (α : Type) (H W : Nat) := Fin H → Fin W → Cx α
-
-/-- `np.fft.fft2` on real images and `np.fft.ifft2(·).real` -/
-structure FFT (Img : Type) (α : Type) (H W : Nat) where
-  fft2 : Img → Spec α H W
-  ifft2re : Spec α H W → Img
+/-! `Cx`, `Spec`, `FFT` (complex pairs, spectra, the Fourier services) and `negIdx`/`negFin` live in `Model/C16_Fourier`
+(no dependency on the regenerated constants) -/
 
 def fftshift2 {H W : Nat} (s : Spec α H W) : Spec α H W := fun y x => s (shiftFin y) (shiftFin x)
 def ifftshift2 {H W : Nat} (s : Spec α H W) : Spec α H W := fun v u => s (ishiftFin v) (ishiftFin u)
